@@ -485,6 +485,7 @@ func runC16More(c *Ctx) {
 	runC16Lazy(c)
 	runC16Enabled(c)
 	runC16Round4(c)
+	runC16CopyLoop(c)
 	pk := p.Pkg("config/confighttp")
 	if pk == nil {
 		c.Anchor("config/confighttp")
